@@ -42,6 +42,15 @@ var solverZ3New = solverSpec{"z3-5.1.0", func(f string, t time.Duration) []strin
 var solverZ3Old = solverSpec{"z3-4.8.12", func(f string, t time.Duration) []string {
 	return []string{"/usr/bin/z3", fmt.Sprintf("-T:%d", int(t.Seconds())), f}
 }, optsZ3}
+// the same two z3 builds with their default configuration (auto_config, model-based quantifier instantiation): they
+// decide some quantified goals the pure e-matching configuration gives up on at once. Only an unsat is ever used from them
+// to discharge; a sat is reported like any other back end's.
+var solverZ3NewAuto = solverSpec{"z3-5.1.0-auto", func(f string, t time.Duration) []string {
+	return []string{"z3-new", fmt.Sprintf("-T:%d", int(t.Seconds())), f}
+}, ""}
+var solverZ3OldAuto = solverSpec{"z3-4.8.12-auto", func(f string, t time.Duration) []string {
+	return []string{"/usr/bin/z3", fmt.Sprintf("-T:%d", int(t.Seconds())), f}
+}, ""}
 var solverCVC5 = solverSpec{"cvc5-1.0.3", func(f string, t time.Duration) []string {
 	return []string{"cvc5", fmt.Sprintf("--tlimit=%d", int(t.Milliseconds())), "--lang=smt2", f}
 }, "(set-logic ALL)\n"}
@@ -138,15 +147,18 @@ func discharge(o Obligation, dir string, thorough bool, timeout time.Duration) R
 		}
 		if !anySat && !anyUnsat && !o.Sample && !o.MustFail {
 			// neither z3 decided it: cvc5 gets its turn (it is the only back end that discharges some quantified goals)
-			b := runOne(solverCVC5, dir, base, o.Query, timeout)
-			res.Attempts = append(res.Attempts, b)
-			res.Secs += b.Secs
-			if b.Verdict == "unsat" {
-				anyUnsat = true
-				res.Solver = b.Solver
-			}
-			if b.Verdict == "sat" {
-				anySat = true
+			for _, sp := range []solverSpec{solverCVC5, solverZ3NewAuto, solverZ3OldAuto} {
+				b := runOne(sp, dir, base, o.Query, timeout)
+				res.Attempts = append(res.Attempts, b)
+				res.Secs += b.Secs
+				if b.Verdict == "unsat" {
+					anyUnsat = true
+					res.Solver = b.Solver
+					break
+				}
+				if b.Verdict == "sat" {
+					anySat = true
+				}
 			}
 		}
 		switch {
@@ -169,10 +181,25 @@ func discharge(o Obligation, dir string, thorough bool, timeout time.Duration) R
 	res.Attempts = append(res.Attempts, a)
 	res.Secs = a.Secs
 	res.Verdict, res.Solver = a.Verdict, a.Solver
-	if a.Verdict == "unsat" || o.MustFail {
+	if a.Verdict == "unsat" {
 		return res
 	}
-	for _, sp := range []solverSpec{solverZ3Old, solverCVC5} {
+	if o.MustFail {
+		// a canary (an assertion that must not be provable): the default configurations of both z3 builds look for an
+		// inconsistency among the hypotheses that pure e-matching would not stumble upon (this is how the contradictory
+		// str1 axiom was found, DESIGN 9.13)
+		for _, sp := range []solverSpec{solverZ3OldAuto, solverZ3NewAuto} {
+			b := runOne(sp, dir, base, o.Query, short)
+			res.Attempts = append(res.Attempts, b)
+			res.Secs += b.Secs
+			if b.Verdict == "unsat" {
+				res.Verdict, res.Solver = "unsat", b.Solver
+				return res
+			}
+		}
+		return res
+	}
+	for _, sp := range []solverSpec{solverZ3NewAuto, solverZ3Old, solverZ3OldAuto, solverCVC5} {
 		b := runOne(sp, dir, base, o.Query, timeout/2)
 		res.Attempts = append(res.Attempts, b)
 		res.Secs += b.Secs
@@ -267,7 +294,7 @@ func (p *pool) wait() []Result {
 						continue
 					}
 					seen[a.Solver] = true
-					for _, sp := range []solverSpec{solverZ3New, solverZ3Old, solverCVC5} {
+					for _, sp := range []solverSpec{solverZ3New, solverZ3Old, solverCVC5, solverZ3NewAuto, solverZ3OldAuto} {
 						if sp.name != a.Solver {
 							continue
 						}
